@@ -514,7 +514,7 @@ func TestEmit(t *testing.T) {
 				}
 			case "bridge":
 				idc := tab.IDs[rng.IntN(len(tab.IDs))]
-				id := map[string]string{"int": "7", "neg": "-3", "exp": "1e3", "frac": "1.5", "str": `"a"`, "emptystr": `""`, "quotestr": `"q\"\\"`, "unistr": `"é😀"`, "bigint": "123456789012345678901234567890"}[idc]
+				id := map[string]string{"int": "7", "neg": "-3", "exp": "1e3", "frac": "1.5", "str": `"a"`, "emptystr": `""`, "quotestr": `"q\"\\"`, "unistr": `"é😀"`, "bigint": "123456789012345678901234567890", "pctstr": `"50%d%s"`}[idc]
 				mj, _ := json.Marshal(method)
 				body := fmt.Sprintf(`{"jsonrpc":"2.0","id":%s,"method":%s`, id, mj)
 				if val != nil {
@@ -572,6 +572,40 @@ func TestEmit(t *testing.T) {
 			}
 			vc.PeerClose()
 			rs.Wait()
+			// bridge replies echo every id class too: the handler's result, a method-not-found error, and the error
+			// objects the bridge writes itself for statically invalid members (three kinds)
+			for _, id := range []string{"7", "-3", "1e3", "1.5", `"a"`, `""`, `"q\"\\"`, `"é😀"`, "123456789012345678901234567890", `"\u2028"`, "0", `" "`,
+				`"50%"`, `"%d%s%v"`, `"%%"`, `"%!(EXTRA)"`, `"{}[]"`, `"\\n"`} {
+				for k, body := range []string{
+					fmt.Sprintf(`{"jsonrpc":"2.0","id":%s,"method":"m","params":[1]}`, id),
+					fmt.Sprintf(`{"jsonrpc":"2.0","id":%s,"method":"no-such-method"}`, id),
+					fmt.Sprintf(`{"jsonrpc":"1.0","id":%s,"method":"m"}`, id),
+					fmt.Sprintf(`{"jsonrpc":"2.0","id":%s,"method":"m","extra":true}`, id),
+					fmt.Sprintf(`{"jsonrpc":"2.0","id":%s,"method":"m","params":7}`, id),
+					fmt.Sprintf(`[{"jsonrpc":"2.0","id":%s,"method":"m","params":"s"},{"jsonrpc":"2.0","id":%s,"method":"m","params":[2]}]`, id, id),
+				} {
+					req := httptest.NewRequest("POST", "http://b/", strings.NewReader(body))
+					req.Header.Set("Content-Type", "application/json")
+					w := httptest.NewRecorder()
+					done := make(chan struct{})
+					go func() { bridge.ServeHTTP(w, req); close(done) }()
+					synctest.Wait()
+					<-done
+					res.Evaluations++
+					rec := w.Body.Bytes()
+					cell := fmt.Sprintf("bridge id %s body kind %d", id, k)
+					ms, ok := wholeMessage(bytes.TrimSpace(rec))
+					if w.Code != 200 || !ok || len(ms) == 0 {
+						res.add(cell, rec, fmt.Sprintf("bridge answered status %d with a body that is not a JSON-RPC reply", w.Code))
+						continue
+					}
+					for _, m := range ms {
+						if !jsonEq(m["id"], []byte(id)) {
+							res.add(cell, rec, fmt.Sprintf("bridge reply id %s, want %s", m["id"], id))
+						}
+					}
+				}
+			}
 		}
 		cli.Close()
 		srv.Wait()
